@@ -4,7 +4,7 @@ PROPS = {
     "C06": dict(
         engines=["core"], props_file="Props/C06.v", checkers=["Oracles/CoreC06.v"],
         checker_fns={"core": "Oracles.CoreC06:c06_check_all"},
-        variants=["gang", "swap", "gang", "swap", "", "recover"],
+        variants=["gangdeep", "swap", "gang", "preemptdeep", "", "recover"],
         coq_scan=["Core/GangPred.v", "Core/Gang.v", "Core/GangProofs.v", "Core/GangProofs2.v", "Core/GangProofs3.v",
                   "Core/MaxApps.v", "Core/ReserveLemmas.v", "Oracles/CoreC06.v", "Props/C06.v", "Core/Obs.v", "Base"],
         level="proof",
